@@ -1,6 +1,6 @@
 """C17 — results do not depend on what was processed before."""
 import json, os, subprocess, random
-import gen, semrun, impl, t2t, corr
+import gen, semrun, impl, t2t, corr, cref
 
 OBLIGATIONS = ['Yalafi.C17_globals_accounted', 'Yalafi.C17_initialState_fresh']
 
@@ -19,7 +19,12 @@ GLSDEFS = ('\\gls@defglossaryentry{%(l)s}{name={%(n)s},text={%(t)s},plural={%(t)
 def gen_doc(rng, k):
     """documents that define / observe state: macros, glossary, languages, packages, placeholders, item counters"""
     names = gen.Names(rng)
-    kind = rng.choice(['define', 'use', 'gls-def', 'gls-use', 'lang', 'math', 'items', 'pkg', 'plain', 'theorem'])
+    kind = rng.choice(['define', 'use', 'gls-def', 'gls-use', 'lang', 'math', 'items', 'pkg', 'plain', 'theorem', 'cref', 'cref'])
+    if kind == 'cref':
+        # package cleveref with a sed file that may lack labels the document uses (a stale file)
+        c = cref.make(rng, stale=rng.random() < 0.6)
+        c.pop('uses', None)
+        return c
     o = {'pack': rng.choice(['*', '*', 'glossaries', 'babel,amsmath']), 'lang': rng.choice(['', 'en', 'de'])}
     files = None
     if kind == 'define':
